@@ -78,6 +78,7 @@ pub fn generate(rng: &mut Rng, tier: Tier, stats: &mut GenStats) -> Scenario {
         mutations: vec![],
         schedule,
         triggers: vec![],
+        lazy: false,
     }
 }
 
